@@ -1,6 +1,8 @@
 package bitexec
 
 import (
+	"os"
+	"strings"
 	"testing"
 	"time"
 
@@ -85,6 +87,106 @@ func TestConcreteAgainstBitRef(t *testing.T) {
 		if !ok || !m.Finished || out[BufLTo] != l || out[BufHTo] != h {
 			dump(t, m)
 			t.Fatal(name, "differs from bit reference")
+		}
+	}
+}
+
+// keysOf runs an assembly text symbolically and returns its violation keys and notes.
+func keysOf(t *testing.T, src string) (viol, notes map[string]bool, m *Machine) {
+	p, err := ParseAsm(src, "·transform")
+	if err != nil {
+		t.Fatal(err)
+	}
+	m = NewMachine("asm", true)
+	p.Run(m)
+	viol, notes = map[string]bool{}, map[string]bool{}
+	for _, f := range m.Findings() {
+		if f.Violation {
+			viol[f.Key] = true
+		} else {
+			notes[f.Key] = true
+		}
+	}
+	return
+}
+
+func TestAsmMutants(t *testing.T) {
+	b, err := os.ReadFile(repo + "/pkg/curl/transform_amd64.s")
+	if err != nil {
+		t.Fatal(err)
+	}
+	src := string(b)
+	for _, tc := range []struct{ name, old, new, key string }{
+		{"wrong displacement", "MOVQ 2904(DX)(R11*8), DI", "MOVQ 2896(DX)(R11*8), DI", "wrong-deps"},
+		{"read one word past the buffer", "MOVQ $0x00000051, SI", "MOVQ $0x00000051, SI\n\tMOVQ 5832(DX), R14", "oob"},
+		{"unaligned read", "MOVQ $0x00000051, SI", "MOVQ $0x00000051, SI\n\tMOVQ 4(DX), R14", "oob"},
+		{"80 rounds", "$0x00000051", "$0x00000050", "round-count"},
+		{"82 rounds", "$0x00000051", "$0x00000052", "round-count"},
+		{"s-box operand swapped", "XORQ R10, R13", "XORQ R8, R13", "wrong-sbox"},
+		{"OR replaced by ADD", "ORQ  R13, R9", "ADDQ R13, R9", "not-lanewise"},
+		{"store dropped", "MOVQ R13, 24(AX)(R12*8)", "NOP", "store-count"},
+		{"no h swap", "XCHGQ BX, CX", "NOP", "wrong-deps"},
+		{"inner loop one iteration short", "CMPQ R12, $0x000002d9", "CMPQ R12, $0x000002d5", "store-count"},
+		{"signed/unsigned mixup stays correct", "JL   StateLoop", "JB   StateLoop", ""},
+	} {
+		if !strings.Contains(src, tc.old) {
+			t.Fatalf("%s: pattern not in file", tc.name)
+		}
+		viol, _, m := keysOf(t, strings.Replace(src, tc.old, tc.new, 1))
+		if tc.key == "" {
+			if len(viol) != 0 || !m.Exhaustive() {
+				t.Errorf("%s: expected a clean run, got %v", tc.name, viol)
+			}
+			continue
+		}
+		if !viol[tc.key] {
+			t.Errorf("%s: expected %s, got %v (stop: %s)", tc.name, tc.key, viol, m.StopWhy)
+		}
+	}
+	// unknown instruction: unsupported, no violation
+	viol, _, m := keysOf(t, strings.Replace(src, "RoundLoop:\n", "RoundLoop:\n\tVPXOR Y0, Y1, Y2\n", 1))
+	if len(viol) != 0 || len(m.Unsup) != 1 || m.Exhaustive() {
+		t.Errorf("unknown instruction: viol=%v unsup=%v", viol, m.Unsup)
+	}
+	// branch on buffer contents: note, not a violation
+	viol, notes, m := keysOf(t, strings.Replace(src, "DECQ  SI", "MOVQ (AX), R15\n\tTESTQ R15, R15\n\tJZ RoundLoop\n\tDECQ SI", 1))
+	if len(viol) != 0 || !notes["data-dependent-branch"] || m.Exhaustive() {
+		t.Errorf("data-dependent branch: viol=%v notes=%v", viol, notes)
+	}
+}
+
+// TestAsmFlags runs small programs whose outcome depends on the modelled flag semantics; the
+// number of stores into lto shows which way the branches went.
+func TestAsmFlags(t *testing.T) {
+	prog := func(body string) string {
+		return "TEXT ·transform(SB), NOSPLIT, $0-32\n\tMOVQ lto+0(FP), AX\n\tMOVQ lfrom+16(FP), DX\n" + body + "\tRET\n"
+	}
+	for _, tc := range []struct {
+		name, body string
+		stores     int
+	}{
+		{"CMPQ a,b; JL taken when a<b (signed)", "\tMOVQ $-1, R8\n\tCMPQ R8, $3\n\tJL yes\n\tRET\nyes:\n\tMOVQ R8, (AX)\n", 1},
+		{"CMPQ a,b; JB not taken for -1 vs 3 (unsigned)", "\tMOVQ $-1, R8\n\tCMPQ R8, $3\n\tJB yes\n\tRET\nyes:\n\tMOVQ R8, (AX)\n", 0},
+		{"SUBQ sets ZF", "\tMOVQ $2, R8\n\tSUBQ $2, R8\n\tJNE no\n\tMOVQ R8, (AX)\nno:\n", 1},
+		{"DECQ loop runs 5 times", "\tMOVQ $5, R9\n\tMOVQ $0, R10\nl:\n\tMOVQ R9, (AX)(R10*8)\n\tINCQ R10\n\tDECQ R9\n\tJNZ l\n", 5},
+		{"JGE/JLE/JG", "\tMOVQ $7, R8\n\tCMPQ R8, $7\n\tJG no\n\tJGE a\n\tRET\na:\n\tJLE b\n\tRET\nb:\n\tMOVQ R8, (AX)\nno:\n", 1},
+		{"JA/JBE unsigned", "\tMOVQ $-1, R8\n\tCMPQ R8, $1\n\tJBE no\n\tJA yes\n\tRET\nyes:\n\tMOVQ R8, 8(AX)\nno:\n", 1},
+		{"LEAQ + XCHGQ + pointer compare", "\tLEAQ 16(AX), R8\n\tXCHGQ R8, AX\n\tCMPQ AX, R8\n\tJHI yes\n\tRET\nyes:\n\tMOVQ $1, (AX)\n", 1},
+		{"ADDQ carry", "\tMOVQ $-1, R8\n\tADDQ $1, R8\n\tJCC no\n\tJEQ yes\n\tRET\nyes:\n\tMOVQ R8, (AX)\nno:\n", 1},
+		{"NEGQ/SHLQ/SHRQ values", "\tMOVQ $1, R8\n\tSHLQ $4, R8\n\tSHRQ $1, R8\n\tNEGQ R8\n\tADDQ $8, R8\n\tJNZ no\n\tMOVQ R8, (AX)\nno:\n", 1},
+		{"ANDNQ", "\tMOVQ $0xF0, R8\n\tMOVQ $0x3C, R9\n\tANDNQ R8, R9, R10\n\tCMPQ R10, $0xC0\n\tJNE no\n\tMOVQ R10, (AX)\nno:\n", 1},
+	} {
+		p, err := ParseAsm(prog(tc.body), "·transform")
+		if err != nil {
+			t.Fatal(tc.name, err)
+		}
+		m := NewMachine("asm", false)
+		var zero [NumBufs][N]uint64
+		m.SetConcrete(&zero)
+		p.Run(m)
+		stores := int(m.StoreCount)
+		if len(m.Unsup) > 0 || !m.Finished || stores != tc.stores {
+			t.Errorf("%s: stores=%d want %d, unsup=%v finished=%v findings=%d", tc.name, stores, tc.stores, m.Unsup, m.Finished, len(m.Findings()))
 		}
 	}
 }
